@@ -364,6 +364,7 @@ def mk_fsrc(f, fname=None, idx=0):
         return o
     if f[0] == 1:
         p = my_tmp(fname if fname is not None else 'in%d.dat' % idx)
+        os.makedirs(os.path.dirname(p), exist_ok=True)
         with open(p, 'wb') as fh:
             fh.write(bytes(f[1]))
         return p
@@ -390,6 +391,7 @@ def mk_wdst(dst, fname=None):
         return io.StringIO() if dst[1] else io.BytesIO()
     if dst[0] == 1:
         p = my_tmp(fname if fname is not None else 'out.dat')
+        os.makedirs(os.path.dirname(p), exist_ok=True)
         if os.path.exists(p):
             os.remove(p)
         return p
@@ -587,6 +589,27 @@ def impl_real(arg):
                 return pdb.parse_file(st, fmt, encoding=enc)
             add('R:parse_file:stream:%s' % sfx, rd(lambda: from_stream(False)))
             add('R:parse_file:stream-suffix:%s' % sfx, rd(lambda: from_stream(True)))
+            # file-like objects that merely carry a .name: an in-memory stream named after a path that does not
+            # exist, and a file opened by a relative name from ANOTHER directory (its .name does not exist from here)
+            def named_memory(named_only):
+                cls = type('Named', (io.StringIO if text_stream else io.BytesIO,), {})
+                st = cls(doc if text_stream else raw)
+                st.name = 'no-such-dir/member' + sfx
+                return pdb.parse_file(st, encoding=enc) if named_only else pdb.parse_file(st, fmt, encoding=enc)
+            add('R:parse_file:named-memory-stream:%s' % sfx, rd(lambda: named_memory(False)))
+            add('R:parse_file:named-memory-stream-suffix:%s' % sfx, rd(lambda: named_memory(True)))
+            def opened_elsewhere():
+                os.makedirs('elsewhere', exist_ok=True)
+                with open(os.path.join('elsewhere', 'rel' + sfx), 'wb') as fh:
+                    fh.write(raw)
+                here = os.getcwd()
+                os.chdir('elsewhere')
+                try:
+                    st = io.open('rel' + sfx, 'r', encoding=enc, newline='') if text_stream else io.open('rel' + sfx, 'rb')
+                finally:
+                    os.chdir(here)
+                return pdb.parse_file(st, encoding=enc)
+            add('R:parse_file:stream-opened-elsewhere-suffix:%s' % sfx, rd(opened_elsewhere))
         p0 = my_tmp('real' + suffixes[0])
         add('R:Parser.parse_file', rd(lambda: Parser(encoding=enc).parse_file(p0)))
         add('R:Parser.parse_files', rd(lambda: Parser(encoding=enc).parse_files([p0[:-len(suffixes[0])]], suffixes[0])))
@@ -594,6 +617,19 @@ def impl_real(arg):
             st = io.StringIO(doc) if text_stream else io.BytesIO(raw)
             return Parser(encoding=enc).parse_stream(st)
         add('R:Parser.parse_stream', rd(via_parse_stream))
+        # ---- names without an extension (also: only leading periods): no format can be chosen -> a pybtex error
+        for nm in ('noext', '.bib', '...', 'dir.x/noext'):
+            pth = my_tmp('e/' + nm)
+            os.makedirs(os.path.dirname(pth), exist_ok=True)
+            with open(pth, 'wb') as fh:
+                fh.write(raw)
+            add('E:parse_file:%s' % nm, rd(lambda: pdb.parse_file(pth, encoding=enc)))
+            add('E:to_file:%s' % nm, outcome(lambda: db.to_file(pth, encoding=enc)))
+            def named_only():
+                st = type('Named', (io.BytesIO,), {})(raw)
+                st.name = nm
+                return pdb.parse_file(st, encoding=enc)
+            add('E:parse_file:stream-named:%s' % nm, rd(named_only))
         # ---- writers
         Writer = find_plugin(G_OUT, fmt)
         wtext = bool(Writer.unicode_io)
@@ -631,6 +667,13 @@ def impl_real(arg):
                     st.close()
                 return q
             add('W:to_file:stream-suffix:%s' % sfx, file_bytes(wr_named_stream))
+            def wr_named_memory():
+                cls = type('Named', (io.StringIO if wtext else io.BytesIO,), {})
+                st = cls()
+                st.name = 'no-such-dir/member' + sfx
+                r = db.to_file(st, encoding=enc)
+                return r.encode(enc) if isinstance(r, str) else r
+            add('W:to_file:named-memory-stream-suffix:%s' % sfx, outcome(wr_named_memory))
         q0 = my_tmp('realout2' + suffixes[0])
         def wr2():
             Writer(encoding=enc).write_file(db, q0)
@@ -1238,6 +1281,9 @@ def oracle_registry(arg, out):
             else:
                 if o[0] == 0:
                     return 'find_plugin(%r, %s) found class %s although nothing is registered or installed' % (g, what, o[1])
+                if o[0] == 2 and not (name and name.startswith('.')):
+                    # (a NAME starting with a period trips an assertion in PluginNotFound: existing behaviour, outside the property)
+                    return 'find_plugin(%r, %s): nothing to find is a pybtex error (PluginNotFound), got a foreign exception' % (g, what)
         else:
             g = S(c[1])
             if o[0] != 0:
@@ -1348,6 +1394,10 @@ def oracle_real(arg, out):
             return 'to_bytes [%s, %s] is not the to_string document encoded: %r... vs %r...' % (fmt, enc, raw[:40], want[:40])
     elif ts[0] != tb[0]:
         return 'to_string and to_bytes disagree on failing [%s, %s]: %s vs %s' % (fmt, enc, show(*ts), show(*tb))
+    for l, (k, v) in d.items():
+        if l.startswith('E:'):
+            if k != 1 or not S(v).endswith('/pybtex'):
+                return '%s: a file name without extension cannot select a format: a pybtex error is expected, got %s' % (l, show(k, v))
     return None
 
 def show(k, v):
@@ -1778,7 +1828,7 @@ def gen_module(tier, rng):
          reg(G_IN, 'RT', 2, 0), reg(G_OUT, 'RT', 2, 0), reg(G_IN, 'rt', 1, 0), reg(G_OUT, 'rt', 1, 0)],
     ]
     fmts = [[], [0, 'bibtex'], [0, 'pb'], [0, 'pta'], [0, 'rt'], [0, 'rta'], [0, 'nope'], [1, 1], [1, 2], [0, ''], [0, 'RT'], [0, 'PB'], [0, 'Bibtex']]
-    fnames = [[], ['f.pt'], ['f.pb'], ['f.rt'], ['f.zz'], ['f'], ['f.RT'], ['f.Rt'], ['f.PT'], ['F.pt']]
+    fnames = [[], ['f.pt'], ['f.pb'], ['f.rt'], ['f.zz'], ['f'], ['f.RT'], ['f.Rt'], ['f.PT'], ['F.pt'], ['.pt'], ['f.'], ['d.pt/f']]
     payloads = ['abc', 'café \r\n x', '!e']
     for setup in setups:
         for fmt in fmts:
